@@ -242,9 +242,14 @@ public:
                 case subscribtion_type::skip_if_behind: {
                     std::size_t relpos = _pos - l._pos - 1;
                     if (relpos >= _q.size()) relpos = _q.size()-1;
+                    //the subscriber's position must follow the value actually delivered
+                    //otherwise the same value is delivered again by the next read
+                    l._pos = _pos - relpos - 1;
                     return _q[relpos];
                 }
                 case subscribtion_type::skip_to_recent: {
+                    //the subscriber's position must follow the value actually delivered
+                    l._pos = _pos - 1;
                     return _q[0];
                 }
             }
